@@ -17,7 +17,7 @@ TRUSTED = ['Coq 8.16.1 kernel + vm_compute', 'harness/tracelib.py probes (counti
            'memory use is represented only by the number of rows read ahead']
 ASSUMES = ['sources are iterables (the tabulator sample of file sources is a constant as well, not modelled)']
 
-KINDS = ['probe_rows', 'probe_row', 'filter', 'add_field', 'set_type', 'expand', 'printer', 'dump', 'stream', 'checkpoint']
+KINDS = ['probe_rows', 'probe_row', 'filter', 'add_field', 'set_type', 'expand', 'printer', 'dump', 'stream', 'checkpoint', 'unique', 'required']
 
 
 def gen_cases(rng, tier):
@@ -43,6 +43,8 @@ def gen_cases(rng, tier):
         cases.append({'kind': 'lookahead', 'n': 600, 'steps': [{'t': 'dump', 'format': fmt}], 'sparse': None})
     for n in (250, 1000):
         cases.append({'kind': 'lookahead', 'n': n, 'steps': [{'t': 'probe_row'}], 'sparse': None, 'sized': True})
+        cases.append({'kind': 'lookahead', 'n': n, 'steps': [{'t': 'unique'}, {'t': 'probe_row'}], 'sparse': None})
+        cases.append({'kind': 'lookahead', 'n': n, 'steps': [{'t': 'unique'}, {'t': 'dump', 'format': 'csv'}], 'sparse': None})
     # a flow consumed by another flow through load((descriptor, resources)): the boundary must stay lazy
     for n in ([600] if tier != 'thorough' else [600, 20000]):
         for cast in (None, 'schema'):
